@@ -38,10 +38,10 @@ MANIFEST = dict(
          "unsorted pairs) and PERMUTATION INVARIANCE of the whole result under reordering of the input triples; quantile functional: "
          "every block value lies between two observations of its block; the model of _nanquantile is monotone in the level, hence lower <= upper on every column of any bootstrap matrix. "
          "The model is tied to the code by differential correspondence (numpy/xarray inputs of 1-3 dims, permuted dims and "
-         "shuffled coordinates, heavy ties, NaN, weights, mean / quantile / 10 custom solvers, regression_func, confidence-band "
+         "shuffled coordinates, per-operand memory layouts (C / Fortran / transposed / strided / reversed views), heavy ties, NaN, weights, mean / quantile / 10 custom solvers, regression_func, confidence-band "
          "arithmetic on the reported bootstrap matrix); the property oracle compares the real isotonic_fit with the exact max-min "
          "formula over the distinct forecasts (Lean Spec, rational arithmetic, independent of PAV and of the sort) exhaustively on all "
-         "short sequences over a 3x3 pool and on random cases, and checks order / shape / container / NaN invariance, bounds, "
+         "short sequences over a 3x3 pool and on random cases, and checks order / shape / container / memory-layout / NaN invariance, bounds, "
          "weighted-mean preservation, counts, block = solver(block), lower <= upper and fixed-seed reproducibility.",
     note="Trusted: Lean kernel; propext/Classical.choice/Quot.sound; the hand model (no translator for this property) and the harness; "
          "scipy.optimize.isotonic_regression (used by the code for the mean functional) is OUTSIDE the proof — the PAV model with the "
@@ -55,7 +55,8 @@ MANIFEST = dict(
     technique="Lean 4 theorems over a hand-written executable model + differential correspondence + exact max-min oracle",
     design="6/C15")
 RULE = ("pairs (fcst, obs[, weight]) drawn from small dyadic pools with heavy ties and NaN in every slot, arranged as numpy / xarray "
-        "arrays of 1-3 dims (xarray operands with permuted dims / shuffled coordinates), functional mean / quantile / 11 custom solvers; "
+        "arrays of 1-3 dims (xarray operands with permuted dims / shuffled coordinates; square / cubic shapes; fcst, obs and weight each "
+        "stored with its own memory layout: C, Fortran / transposed view, axis-permuted, strided a[::k], reversed a[::-1] views), functional mean / quantile / 11 custom solvers; "
         "exhaustive: every sequence up to a length over a 3-value pool; distinct = distinct canonical case; "
         "non-trivial = at least two valid pairs")
 
@@ -94,11 +95,12 @@ def py_solver(kind, weighted):
 
 # ------------------------------------------------------------------------------------------------ cases
 def mk_case(f, o, w=None, kind="mean", q=0.5, shape=None, container="numpy", perm=None, boots=None, seed=0,
-            confidence=0.75, min_non_nan=1):
+            confidence=0.75, min_non_nan=1, layout=None):
     n = len(f)
     return {"fcst": [float(x) for x in f], "obs": [float(x) for x in o], "weight": None if w is None else [float(x) for x in w],
             "kind": kind, "q": float(q), "shape": list(shape) if shape else [n], "container": container,
-            "perm": perm, "bootstraps": boots, "seed": seed, "confidence": float(confidence), "min_non_nan": int(min_non_nan)}
+            "perm": perm, "bootstraps": boots, "seed": seed, "confidence": float(confidence), "min_non_nan": int(min_non_nan),
+            "layout": layout}
 
 
 def valid_pairs(case):
@@ -112,13 +114,71 @@ def valid_pairs(case):
     return out
 
 
+FILL = 77.0          # content of the memory BETWEEN the elements of a strided operand (never a legitimate element)
+
+
+def relayout(a, spec):
+    """an array EQUAL to `a` (same shape, same values at every index) but stored with another MEMORY LAYOUT:
+    spec = {"order": memory order of the axes, slowest first (identity = C, reversed = Fortran / transposed view),
+            "step": per-axis element step inside a larger base array (a[::2]-style strided slices),
+            "flip": per-axis negative stride (a[:, ::-1]-style views), "offset": per-axis start inside the base}.
+    The result is a VIEW into a bigger base filled with FILL; only the layout differs, never the labelled pairs."""
+    if spec is None:
+        return a
+    nd = a.ndim
+    order, step, flip, off = spec["order"], spec["step"], spec["flip"], spec["offset"]
+    assert sorted(order) == list(range(nd)) and len(step) == len(flip) == len(off) == nd
+    base = np.full([a.shape[ax] * step[ax] + off[ax] for ax in order], FILL, dtype=a.dtype)
+    v = base[tuple(slice(off[ax], off[ax] + a.shape[ax] * step[ax], step[ax]) for ax in order)]
+    v = v.transpose([order.index(i) for i in range(nd)])
+    v = v[tuple(slice(None, None, -1) if flip[ax] else slice(None) for ax in range(nd))]
+    assert v.shape == a.shape
+    v[...] = a
+    return v
+
+
+def gen_layout(rng, nd):
+    """memory layout of ONE operand: C copy (None), Fortran / transposed view, axis-permuted, strided, reversed, mixtures"""
+    r = rng.random()
+    if r < 0.2:
+        return None
+    order = list(range(nd))
+    if r < 0.45:
+        order = order[::-1]                                    # np.asfortranarray / a.T view of a C array
+    elif r < 0.75:
+        rng.shuffle(order)
+    plain = r < 0.45 or rng.random() < 0.4
+    return {"order": order,
+            "step": [1 if plain else rng.choice([1, 1, 2, 3]) for _ in range(nd)],
+            "flip": [False if plain else rng.random() < 0.3 for _ in range(nd)],
+            "offset": [0 if plain else rng.choice([0, 0, 1]) for _ in range(nd)]}
+
+
+def layout_class(case):
+    lay = case.get("layout")
+    if not lay:
+        return "layout:default"
+    ops = ["f", "o"] + (["w"] if case["weight"] is not None else [])
+    keys = [repr(lay.get(k)) for k in ops]
+    if all(lay.get(k) is None for k in ops):
+        return "layout:default"
+    return "layout:operands-differ" if len(set(keys)) > 1 else "layout:non-C-shared"
+
+
 def build_inputs(case):
     """the arrays actually handed to isotonic_fit: numpy of the case's shape, or xarray (obs / weight possibly with
-    permuted dims and shuffled coordinate labels — the same labelled pairs)"""
+    permuted dims and shuffled coordinate labels — the same labelled pairs); every operand may be stored with its own
+    memory layout (case["layout"]: transposed / Fortran / strided / reversed views) — still the same labelled pairs"""
     shape = tuple(case["shape"])
+    lay = case.get("layout") or {}
     f = np.array(case["fcst"], dtype=float).reshape(shape)
     o = np.array(case["obs"], dtype=float).reshape(shape)
     w = None if case["weight"] is None else np.array(case["weight"], dtype=float).reshape(shape)
+    permuted = case["container"] == "xarray-permuted" and case.get("perm")
+    f = relayout(f, lay.get("f"))
+    if not permuted:                                  # (permuted: the layout applies to the dim-permuted backing array)
+        o = relayout(o, lay.get("o"))
+        w = None if w is None else relayout(w, lay.get("w"))
     if case["container"] == "numpy":
         return f, o, w
     dims = ["".join(["d", str(i)]) for i in range(len(shape))]
@@ -126,7 +186,7 @@ def build_inputs(case):
     fx = xr.DataArray(f, dims=dims, coords=coords)
     ox = xr.DataArray(o, dims=dims, coords=coords)
     wx = None if w is None else xr.DataArray(w, dims=dims, coords=coords)
-    if case["container"] == "xarray-permuted" and case.get("perm"):
+    if permuted:
         p = case["perm"]
         order = [dims[i] for i in p["dims"]]
         ox = ox.transpose(*order)
@@ -135,6 +195,11 @@ def build_inputs(case):
         ox = ox.isel({d0: idx})
         if wx is not None:
             wx = wx.transpose(*order[::-1]) if len(order) > 1 else wx
+        # own backing arrays in the permuted dim order (a C copy there is a transposed view once aligned to fcst's dims)
+        if lay.get("o") is not None:
+            ox = ox.copy(data=relayout(np.array(ox.values), lay["o"]))
+        if wx is not None and lay.get("w") is not None:
+            wx = wx.copy(data=relayout(np.array(wx.values), lay["w"]))
     return fx, ox, wx
 
 
@@ -182,6 +247,10 @@ def spec_op(case):
 
 def gen_case(rng, kinds, big=False, boots=False):
     n = rng.choice([1, 2, 2, 3, 4, 5, 6, 8, 12]) if not big else rng.randint(15, 60)
+    cube = None
+    if rng.random() < (0.2 if not big else 0.3):        # square / cubic shapes: a positional mix-up passes every shape check
+        cube = rng.choice([[2, 2], [3, 3], [2, 2, 2], [4, 4], [2, 3, 2]] if not big else [[4, 4], [5, 5], [3, 3, 3], [6, 6], [3, 4, 3]])
+        n = int(np.prod(cube))
     den = rng.choice([1, 2, 4])
     pool = [rng.randint(-3 * den, 3 * den) / den for _ in range(rng.randint(1, 4))]
     pf = rng.choice([0.3, 0.7, 0.95])
@@ -215,6 +284,8 @@ def gen_case(rng, kinds, big=False, boots=False):
         f2 = [(c, b // c) for c in range(1, b + 1) if b % c == 0]
         c, d = rng.choice(f2)
         shape = [a, c, d]
+    if cube is not None:
+        shape = list(cube)
     container = rng.choice(["numpy", "numpy", "xarray", "xarray-permuted"])
     perm = None
     if container == "xarray-permuted":
@@ -229,12 +300,17 @@ def gen_case(rng, kinds, big=False, boots=False):
     mnn = rng.choice([1, 1, 1, 2, 3])
     if boots:
         b = rng.choice([1, 2, 3, 5, 8, 20])
-    return mk_case(f, o, w, kind, q, shape, container, perm, b, seed, conf, mnn)
+    layout = None
+    if rng.random() < (0.6 if len(shape) > 1 else 0.25):  # operands with their own (mostly different) memory layouts
+        layout = {"f": gen_layout(rng, len(shape)), "o": gen_layout(rng, len(shape)), "w": gen_layout(rng, len(shape))}
+        if rng.random() < 0.15:
+            layout["o"] = layout["w"] = layout["f"]        # one shared non-C layout
+    return mk_case(f, o, w, kind, q, shape, container, perm, b, seed, conf, mnn, layout)
 
 
 def describe(case):
     return {k: case[k] for k in ("fcst", "obs", "weight", "kind", "q", "shape", "container", "bootstraps", "seed", "confidence",
-                                 "min_non_nan")}
+                                 "min_non_nan")} | {"layout": case.get("layout")}
 
 
 def tag_case(ctx, case):
@@ -242,6 +318,9 @@ def tag_case(ctx, case):
     ctx.tag("kind:" + case["kind"])
     ctx.tag("container:" + case["container"])
     ctx.tag("ndim:%d" % len(case["shape"]))
+    ctx.tag(layout_class(case))
+    if len(case["shape"]) > 1 and len(set(case["shape"])) == 1 and case["shape"][0] > 1:
+        ctx.tag("shape:square")
     ctx.tag("weights" if case["weight"] is not None else "no-weights")
     ctx.tag("has-nan" if len(vp) < len(case["fcst"]) else "no-nan")
     fs = [p[0] for p in vp]
@@ -331,6 +410,10 @@ def correspondence(ctx):
         ctx.case("confidence-band-vs-model", describe(c), nontrivial=len(tf) >= 2)
         ctx.tag("boot-nan-col" if np.isnan(r["boot"]).any() else "boot-full")
         for key in ("lower", "upper"):
+            if last and last[-1] >= len(m[key]):          # the code kept another set of pairs than the documented one
+                ctx.fail("confidence-band-vs-model", "correspondence", "_confidence_band", key + "-length-differs", describe(c),
+                         observed=len(m[key]), expected=last[-1] + 1, tags={"kind": c["kind"]})
+                continue
             exp = [m[key][i] for i in last]
             if not cmp_lists(r[key], exp):
                 ctx.fail("confidence-band-vs-model", "correspondence", "_confidence_band", key + "-differs", describe(c),
@@ -454,16 +537,19 @@ def variants(case):
     for name, p in (("reversal", idx[::-1]), ("rotation", idx[n // 2:] + idx[:n // 2])):
         c2 = dict(case, fcst=[case["fcst"][i] for i in p], obs=[case["obs"][i] for i in p],
                   weight=None if case["weight"] is None else [case["weight"][i] for i in p],
-                  shape=[n], container="numpy", perm=None, bootstraps=None)
+                  shape=[n], container="numpy", perm=None, bootstraps=None, layout=None)
         out.append((name, c2))
     # flat numpy presentation of the same arrays
-    out.append(("flattening", dict(case, shape=[n], container="numpy", perm=None, bootstraps=None)))
+    out.append(("flattening", dict(case, shape=[n], container="numpy", perm=None, bootstraps=None, layout=None)))
+    # the same container / shape / dims, every operand a fresh C-contiguous array
+    if case.get("layout"):
+        out.append(("c-contiguous-copies", dict(case, bootstraps=None, layout=None)))
     # valid pairs only / extra NaN pairs
     vp = valid_pairs(case)
     if vp:
         c3 = dict(case, fcst=[p[0] for p in vp], obs=[p[1] for p in vp],
                   weight=None if case["weight"] is None else [p[2] for p in vp], shape=[len(vp)], container="numpy", perm=None,
-                  bootstraps=None)
+                  bootstraps=None, layout=None)
         out.append(("dropping-nan-pairs", c3))
         c4 = dict(c3, fcst=c3["fcst"] + [NAN, 1.0], obs=c3["obs"] + [2.0, NAN],
                   weight=None if c3["weight"] is None else c3["weight"] + [1.0, 1.0], shape=[len(vp) + 2])
@@ -483,6 +569,17 @@ def corpus_cases():
     C.append(mk_case([1, 2, 3, 4, 5], [5, 4, 3, 2, 1], [1, 2, 3, 2, 1], "max_plus_len"))
     C.append(mk_case([NAN, 1, 2], [1, NAN, 3], [1, 1, NAN]))
     C.append(mk_case([NAN, 1, 2], [1, NAN, 3], [1, 1, 2]))
+    # operands with different memory layouts (square shapes: a positional mix-up passes every shape check)
+    F2 = {"order": [1, 0], "step": [1, 1], "flip": [False, False], "offset": [0, 0]}
+    C2 = {"order": [0, 1], "step": [1, 1], "flip": [False, False], "offset": [0, 0]}
+    S2 = {"order": [0, 1], "step": [2, 1], "flip": [False, True], "offset": [1, 0]}
+    C.append(mk_case([1, 2, 3, 4], [1, 4, 2, 8], None, "mean", shape=[2, 2], layout={"f": F2, "o": None, "w": None}))
+    C.append(mk_case([1, 2, 3, 4, 5, 6, 7, 8, 9], [1, 5, 2, 7, 3, 9, 4, 6, 8], [1, 2, 3, 1, 2, 3, 1, 2, 3], "mean", shape=[3, 3],
+                     layout={"f": None, "o": F2, "w": S2}))
+    C.append(mk_case([1, 2, 3, 4, 5, 6], [6, 1, 5, 2, 4, 3], None, "quantile", 0.5, shape=[2, 3], container="xarray",
+                     layout={"f": S2, "o": F2, "w": None}))
+    C.append(mk_case([1, 2, 3, 4], [1, 4, 2, 8], [1, 2, 3, 4], "wmean", shape=[2, 2], container="xarray-permuted",
+                     perm={"dims": [1, 0], "idx0": [0, 1]}, layout={"f": None, "o": C2, "w": C2}))
     return C
 
 
@@ -546,6 +643,7 @@ def oracle(ctx, boost):
 def replay(ctx, payload):
     case = payload["case"]
     case.setdefault("perm", None)
+    case.setdefault("layout", None)
     for k in ("bootstraps",):
         case.setdefault(k, None)
     spec = None
